@@ -444,6 +444,11 @@ def run_case(case):
         prog = progs.gen_program(case['seed'], **case['opts'])
         cfgs = rt.CONFIGS6
     text, rr = render.render(prog)
+    if case.get('k', 0) % 2 and not case.get('unit') and case.get('prec') is None:
+        # the locals of different routines share their names in the text (RefQB keeps the unique IR names)
+        text, nre = render.reuse_names(text)
+        if nre:
+            prog['features'] = sorted(set(prog['features']) | {'names-reused-across-routines'})
     st['features'] = prog['features']
     shape = shape_of(text)
     nontrivial = False
